@@ -75,6 +75,25 @@ CHECKS["C13"] = dict(
          "message of every reachable world; removal is exact. The .mh_sequences clause is decided on the implementation: the "
          "file is read as an MH tool would after every command and compared with what the IMAP sessions see.",
     note=MBOX_NOTE + " The textual content of .mh_sequences is not in the model (oracle on the real file).", category="proof", ref="6/C13")
+CHECKS["C12"] = dict(
+    technique="Coq proof of the persistence codec round trip and of restart-as-identity on the world model; observe/restart/observe correspondence on the real server",
+    text="Theorems: expand(compact l) = l for every strictly ascending list (the persisted form of UID lists, message keys "
+         "and sequences); in the world model a restart keeps every mailbox (UIDVALIDITY, UIDNEXT, messages, UIDs, order, "
+         "flags) and the C01/C02 invariants. That the real restart is that step is decided per run: everything a client can "
+         "observe through LIST/LSUB/STATUS/UID FETCH is recorded before shutdown and after restart on generated histories "
+         "(sparse UIDs, packing, keywords, placeholders, renames, subscriptions, pending deliveries) and compared.",
+    note=TB + "Modelled not verified: SQLite, the commit discipline of each command (decided by the observe/restart/observe runs), "
+         "the decimal text of the persisted lists (Python str/int).", ref="6/C12")
+CHECKS["C20"] = dict(
+    technique="Coq proof over generated dot_stuff (py2v) + hand model of the POP3 session tied by differential correspondence against the real POP3ClientProxy/POP3CommandHandler",
+    text="Proof: for all byte strings (stuffing, un-stuffing, framing of the generated dot_stuff) and for all sequences of POP3 "
+         "commands interleaved with IMAP appends/expunges/packs on the model (snapshot stability, UIDL = IMAP UID, QUIT removes "
+         "exactly the marked messages that still exist, RSET/drop keep everything, announced size = delivered octets); "
+         "model = code by per-run differential testing.",
+    note=TB + "Model/Pop3M.v is hand-written (end_multiline, _valid_msg_num, lazy size cache, QUIT) and tied only by correspondence; "
+         "oracles of the model: the e-mail library's renderings of a message, Python's int() on arguments, Mailbox.expunge/append/"
+         "pack as atomic INBOX updates (C05/C02/C13), UIDs increasing and never reused (C02); commands atomic (QUIT's expunge "
+         "bypassing the mailbox queue is C10); LIST/UIDL multi-line framing is checked by a strict tokenizer, not proved.", ref="6/C20")
 NOT_YET = {}
 
 props = [json.loads(l) for l in (V / "properties.jsonl").read_text().splitlines() if l.strip()]
